@@ -9,6 +9,10 @@ TEXT = {
         level="Same world as C01 with time-indexed select/insert interleaved with the ring-buffer writers so the pointer is anywhere; spy interpolation/extrapolation callables observe which samples and which elapsed time the record hands over; scalar/tensor twins; out-of-range times as refused-operation faults; round trips through every shipped interp/extrap pair.",
         ref="DESIGN.md 5.2", note="Times closer than a float32 rounding margin to a tolerance or range boundary are not judged (counted as undecided in the evidence).",
         technique=SIM + ", spy callables through the public interp=/extrap= seams"),
+    "C07": dict(
+        level="Seeded observation histories (boolean and real, with conditions) with interleaved clear(keepshape True/False) faults against every trace / fold reducer and the functional trace_* family; after each observation the latest value is compared with the float64 closed form over the event list since the last clear, an in-place twin must stay bit-identical, and time-indexed views (scalar, tensor, on and off the grid) and dumps are compared with the values the reducer itself reported at those steps.",
+        ref="DESIGN.md 5.8", note="Continuous values use |a-b| <= 2e-5 + 2e-4|b|; views older than the first observation since a clear are not judged (nothing was recorded then).",
+        technique="deterministic simulation: seeded event histories with clear faults vs float64 closed forms and the recorded history"),
     "C13": dict(
         level="Reconfiguration operations (dt, duration, inclusive, reconstrain add/edit/remove) issued from every reachable ring state (any pointer, any fill level, initialised or lazy storage) interleaved with the C01 operations; size formula, tail preservation, zero fill and constraint bookkeeping checked after every operation; a second sub-world drives ShapedTensor constraint bookkeeping (strict/non-strict, live, ignored storage).",
         ref="DESIGN.md 5.3", note="Edits of observation-dimension constraints that would resize the observation are outside the statement and skipped; strict constraints follow the documented minimum-dimensionality rule.",
